@@ -50,11 +50,40 @@ class Prop:
         return True
 
     def sanity(self, agg, tier):
-        """-> list of harness-error strings (reach probes stuck at zero...)"""
-        return []
+        """-> list of harness-error strings (reach probes below their floor, fault kinds that never fired)"""
+        from .props._meta import META
+        m = META.get(self.id, {})
+        errs = []
+        scale = 1.0 if tier == 'thorough' else 1.0
+        for k, floor in m.get('reach', {}).items():
+            if agg.get('reach', {}).get(k, 0) < floor * scale and self._full_budget:
+                errs.append(f'{self.id}: reach probe {k}={agg.get("reach", {}).get(k, 0)} below floor {floor}')
+        for k in m.get('faults', ()):
+            if agg.get('faults', {}).get(k, 0) == 0 and self._full_budget:
+                errs.append(f'{self.id}: fault kind {k} never fired')
+        for k, floor in m.get('sanity', {}).items():
+            if agg.get(k, 0) < floor and self._full_budget:
+                errs.append(f'{self.id}: counter {k}={agg.get(k, 0)} below floor {floor}')
+        return errs
+
+    _full_budget = True
 
     def sample_view(self, case):
         return case
+
+
+def _apply_meta(prop):
+    from .props._meta import META
+    m = META.get(prop.id, {})
+    for k in ('level_text', 'level_note', 'rule', 'real_vs_stub'):
+        if k in m and not prop.__class__.__dict__.get(k):
+            setattr(prop, k, m[k])
+    if 'assumptions' in m and not getattr(prop, '_meta_applied', False):
+        base = list(getattr(prop, 'base_assumptions', [])) or list(prop.assumptions)
+        prop.assumptions = base + [a for a in m['assumptions'] if a not in base]
+    elif not prop.assumptions and getattr(prop, 'base_assumptions', None):
+        prop.assumptions = list(prop.base_assumptions)
+    prop._meta_applied = True
 
 
 def make_case(prop, verif_seed, tier, index):
@@ -208,6 +237,8 @@ def run_check(prop, tier, verif_seed, n_runs=None, workers=None, write_evidence=
     t0 = core.wall()
     core.load_library()
     n = n_runs if n_runs is not None else prop.budgets[tier]
+    prop._full_budget = n >= prop.budgets['quick']
+    _apply_meta(prop)
     workers = workers or int(os.environ.get('SIMV_WORKERS', '0')) or min(16, os.cpu_count() or 1)
     chunk = max(1, min(250, n // (workers * 4) or 1))
     tasks = [(s, min(n, s + chunk)) for s in range(0, n, chunk)]
